@@ -65,7 +65,6 @@ type source struct {
 	enc                     codecs.EncodeFunc
 	encM                    int
 	explicit                []*rtp.Packet
-	sizes                   []int
 }
 
 const (
